@@ -186,6 +186,11 @@ def do_replay(prop: str, path: str) -> int:
         from .props import codec_interference
         codec_interference.replay(case)
         return 0
+    if "aliasing" in case:
+        # what the application did with decoded messages between decodes (C02): re-executed on the implementation
+        from .props import codec_aliasing
+        codec_aliasing.replay(case)
+        return 0
     print(json.dumps(case, indent=1, default=str)[:4000])
     print("(this engine's cases are replayed by re-running the check: the corpus and the seed reproduce them)")
     return 0
